@@ -94,7 +94,7 @@ pub fn output_tokens(
     let unsafety = &out_trait.unsafety;
     let params = out_trait.generics.impl_params_from_idents(
         generic_idents,
-        generics::TakesSelfByValue(false), // BUG?
+        generics::has_any_self_by_value(out_trait.fns.iter().map(|trait_fn| trait_fn.sig())),
     );
     let args = out_trait
         .generics
@@ -362,13 +362,24 @@ fn gen_delegation_method<'s>(
                 self.as_ref().borrow().#fn_ident(#(#arguments),*)
             },
         },
-        _ => DelegatingMethod {
-            trait_fn,
-            sig: fn_sig,
-            call: quote! {
-                self.as_ref().#fn_ident(#(#arguments),*)
-            },
-        },
+        _ => {
+            let takes_self_by_value = matches!(
+                fn_sig.inputs.first(),
+                Some(syn::FnArg::Receiver(receiver)) if receiver.reference.is_none()
+            );
+            let call = if takes_self_by_value {
+                // a by-value receiver hands the application over to the delegate
+                quote! { self.into_inner().#fn_ident(#(#arguments),*) }
+            } else {
+                quote! { self.as_ref().#fn_ident(#(#arguments),*) }
+            };
+
+            DelegatingMethod {
+                trait_fn,
+                sig: fn_sig,
+                call,
+            }
+        }
     }
 }
 
